@@ -72,7 +72,7 @@ def check(ctx):
     proved = ctx.prove("props/C03.v", ["proofs/PolyFacts.v", "proofs/PolyLP.v"])
     ctx.build(["model/Corr.vo", "base/Farkas.vo"])
     rng = random.Random(ctx.seed)
-    n = (300 if ctx.quick else 5000) * (1 if proved else 3)
+    n = (300 if ctx.quick else 20000) * (1 if proved else 3)
     exprs, cases, seen = [], [], set()
     hist = {}
     for k in range(n):
@@ -96,7 +96,7 @@ def check(ctx):
         if k < 2:
             ctx.sample(payload)
     # contract level: <=, contains_environment / contains_implementation, interface mismatch
-    ncon = (60 if ctx.quick else 1000)
+    ncon = (60 if ctx.quick else 6000)
     for k in range(ncon):
         nv = rng.randint(2, 4)
         vs = gen.VARS[:nv]
